@@ -134,6 +134,9 @@ def check_error(v, e, parent, case, top_doc):
         got = walk_doc(top_doc, e.document_path)
         if got is not MISSING and got is not None:
             return 'required-field error at %r although the field is present' % (e.document_path,)
+        # the violated constraint is `required: True` of the field or `require_all: True` of its level
+        if e.constraint is not True:
+            return 'required-field error at %r carries the constraint %r' % (e.document_path, e.constraint)
     else:
         got = walk_doc(top_doc, e.document_path)
         if got is MISSING:
@@ -161,6 +164,11 @@ def oracle(ctx, case, jcase, normalize):
     if out.exc is not None:
         return 0
     n = 0
+    if case.get('index', 0) % 2 == 0:
+        try:
+            out.v.errors          # what the errors point to must not depend on whether they were rendered
+        except Exception:
+            pass
 
     def rec(errs, parent):
         nonlocal n
